@@ -37,6 +37,11 @@ FIXTURE_SEED = {
     'SEGFLOW': 'SF1-seg-next-advance-after-remove',
     'UNCHECKED': 'U1-keylist-err-unguarded',
     'PANICSITE': 'E3-setlist-before-unguarded',
+    'INORDER': 'IO2-export-swapped-children',
+    'ENTITY': 'EN1-map-delete-split-entity',
+    'LINKPAIR': 'K1-all-rotate-right-grandchild-parent',
+    'NILSTATE': 'K3-set-nil-not-unlinked-on-red-parent',
+    'COLOR': 'K2-key-insert-new-black',
 }
 # second fixture for LIVE on the seg family
 EXTRA_FIXTURES = {'C03': ['L4-seg-expiry-le'], 'C16': ['L4-seg-expiry-le']}
